@@ -633,6 +633,11 @@ def fuse_probe_case(draw):
     for k, (ty, ot, on) in enumerate([('framepos', 'site', 'sb3'), ('framepos', 'geom', g3), ('framequat', 'site', 'sx1')]):
       if d(st.booleans()):
         sens.append(dict(name='n%d' % k, type=ty, objtype=ot, obj=on, owner='parent', refs=[on]))
+  xb = None
+  if d(st.integers(0, 3)) == 0:
+    xb = 's1'
+    sens.append(dict(name='nx', type='framequat', objtype=d(st.sampled_from(['xbody', 'xbody', 'body'])), obj='s1',
+                     owner='parent', refs=['s1']))
   host['items'].append(s1)
   world = [host]
   if d(st.booleans()):
@@ -652,13 +657,24 @@ def fuse_probe_case(draw):
   alt = gr._copy(model)
   homog(alt['world'], 0.0)
   return dict(kinds=['fuse'], seed=d(st.integers(0, 2 ** 31 - 1)), plain=plain, rw=rw, alt=gr.Renderer(None).render(alt),
-              child=None, stats=[], skip=None)
+              child=None, stats=[], skip=None, xbody_sensor=[sn['objtype'] for sn in sens if sn['name'] == 'nx'])
 
 
 def check_fuse_probe(ck, lib, case):
+  from vf import mj
   ck.journal(case)
   mA = compile_case(lib, case['plain'], None)
-  mB = compile_case(lib, case['rw'], None)
+  try:
+    mB = compile_case(lib, case['rw'], None)
+  except mj.MjError as e:
+    if case.get('xbody_sensor') == ['xbody'] and "unrecognized name 's1' of sensorized object" in str(e):
+      ck.violation('fusestatic: a model whose static body is referenced by a sensor with objtype="xbody" fails to compile '
+                   '(%s); XMLreference compiler/fusestatic: static bodies are fused unless they are referenced by '
+                   'another element' % str(e).split(chr(10))[0], dict(check='fuse-probe', case=case),
+                   bucket='fuse-xbody-sensor', fingerprint='fusestatic-xbody-sensor-rejected')
+      ck.case(nontrivial=True, key=(case['plain'],), labels=['probe:fuse', 'probe:xbody-sensor-rejected(known-finding)'])
+      return
+    raise
   what = 'fuse-probe'
   IA, IB, common = compare_models(lib, mA, mB, ['fuse'], what)
   nf, hetero = fused_mass_check(lib, mA, mB, IA, IB, what)
